@@ -282,6 +282,12 @@ class ImageViewerState(MatplotlibDataViewerState):
                 if not forced:
                     self._on_yatt_world_change(forced=True)
 
+        elif self.reference_data is None:
+
+            # There is no dataset left in the viewer, so the pixel attribute
+            # should not keep referring to a dataset that has been removed
+            self.x_att = None
+
     @defer_draw
     def _on_yatt_world_change(self, *args, forced=False):
 
@@ -307,6 +313,10 @@ class ImageViewerState(MatplotlibDataViewerState):
 
             if not forced:
                 self._on_xatt_world_change(forced=True)
+
+        elif self.reference_data is None:
+
+            self.y_att = None
 
     def _set_reference_data(self):
         if self.reference_data is None:
